@@ -10,6 +10,7 @@ import (
 var opKindsCursorTree = []string{
 	"add", "add", "add", "add", "add", "replace", "remove", "removeI", "removeI",
 	"asc", "asc", "desc", "desc", "zig", "zig", "drain", "rm2", "bulkremove", "deep", "deep",
+	"cursor", "cursorI", "cursorI", "clone", "switch", "switch",
 }
 
 var moveKinds = []string{
@@ -31,6 +32,14 @@ func genCursorCase(t *rapid.T) CursorCase {
 		run := rapid.SampledFrom([]string{"asc", "desc", "zig"}).Draw(t, "runKind")
 		c.Tree.Ops = append(c.Tree.Ops, Op{Kind: run, A: rapid.IntRange(7, 39).Draw(t, "runLen")},
 			Op{Kind: "deep", A: rapid.IntRange(0, 5).Draw(t, "dn"), B: rapid.IntRange(0, 400).Draw(t, "db")})
+	}
+	if rapid.IntRange(0, 2).Draw(t, "cloneScenario") == 0 {
+		// look a key up, clone, edit one side near that key, look the same key up on the other side
+		x := rapid.IntRange(0, 47).Draw(t, "cx")
+		near := Op{Kind: rapid.SampledFrom([]string{"remove", "add", "replace", "rm2"}).Draw(t, "cedit"), A: (x + rapid.IntRange(-1, 1).Draw(t, "cdx") + 48) % 48}
+		c.Tree.Ops = append(c.Tree.Ops, Op{Kind: "add", A: x}, Op{Kind: "cursor", A: x, B: rapid.IntRange(0, 9).Draw(t, "cb1")},
+			Op{Kind: "clone", A: rapid.IntRange(0, 1).Draw(t, "cside")}, near, Op{Kind: "switch", A: rapid.IntRange(0, 1).Draw(t, "csw")},
+			Op{Kind: "cursor", A: x, B: rapid.IntRange(0, 9).Draw(t, "cb2")}, Op{Kind: "switch", A: 0}, Op{Kind: "cursor", A: x, B: rapid.IntRange(0, 9).Draw(t, "cb3")})
 	}
 	c.Moves = rapid.SliceOfN(rapid.Custom(func(t *rapid.T) Move {
 		return Move{Kind: rapid.SampledFrom(moveKinds).Draw(t, "mk"), A: rapid.IntRange(0, 500).Draw(t, "ma")}
